@@ -417,6 +417,8 @@ def run(spec, tier='quick'):
         res['cmd'] = 'CARGO_NET_OFFLINE=true ' + ' '.join(cmd) + '   # RLIMIT_AS %g GiB/process, wall %ds' % (mem_gb, w_to)
         r = _Runner(cmd, work, mem_gb, w_to).run()
         peak = r.peak_rss_kb
+        with open(os.path.join(scratch, 'kani.log'), 'w') as f:  # only survives with VERIF_KEEP_SCRATCH / --keep
+            f.write(r.out)
 
         # 4. classify
         outdir = os.path.join(work, 'result_output_dir')
